@@ -406,6 +406,82 @@ fn check_order_abstraction(ctx: &Ctx) {
     }
 }
 
+/// (iii-b) operands are never modified: a value of any size - bound last, so that it is the newest thing
+/// on the heap - is used as an operand of every operator and built-in that could be tempted to reuse
+/// its storage; the operation evaluated twice gives the same result and the operand reads back unchanged.
+fn check_operand_immutability(ctx: &Ctx) {
+    let sizes: &[usize] = if ctx.quick() { &[10, 300, 1023, 1024, 1025, 5000] } else { &[1, 10, 100, 255, 256, 300, 1000, 1023, 1024, 1025, 2048, 4097, 5000, 70000] };
+    let mut values: Vec<(String, &'static str)> = vec![];
+    for &n in sizes {
+        values.push((format!("slice(join(range(0, {}) via to_string, \"\"), 0, {})", n, n), "string"));
+        values.push((format!("join(range(0, {}) via (i => \"{}\"), \"\")", n / 2 + 1, '\u{e9}'), "string"));
+        values.push((format!("range(0, {})", n.min(5000)), "list"));
+        values.push((format!("range(0, {}) via to_string", n.min(5000)), "list"));
+    }
+    values.push(("{k0: 1, k1: [2], k2: \"s\", k3: null, k4: 4, k5: 5, k6: 6, k7: 7, k8: 8, k9: 9, k10: 10, k11: 11, k12: 12, k13: 13, k14: 14, k15: 15, k16: 16, k17: 17, k18: 18, k19: 19, k20: 20}".to_string(), "record"));
+    let ops: Vec<(&'static str, &'static str)> = vec![
+        ("big + sep", "string"), ("big + big", "string"), ("sep + big", "string"), ("[big] + [sep]", "string"), ("big + other", "any"), ("[big, big]", "any"), ("big == big", "any"), ("len(big)", "any"),
+        ("to_string(big)", "any"), ("format(\"{}\", big)", "any"), ("replace(big, \"1\", \"x\")", "string"), ("uppercase(big)", "string"), ("trim(big)", "string"), ("split(big, \"1\")", "string"),
+        ("slice(big, 0, 5)", "any"), ("head(big)", "any"), ("tail(big)", "any"), ("[...big, 1]", "any"), ("big[0]", "any"), ("big via (x => x)", "list"), ("big where (x => true)", "list"),
+        ("concat(big, [1])", "list"), ("sort(big)", "list"), ("reverse(big)", "list"), ("unique(big)", "list"), ("join(big via to_string, \",\")", "list"), ("flatten([big, big])", "list"), ("zip(big, big)", "list"),
+        ("chunk(big, 7)", "list"), ("sum(big)", "list"), ("big + 1", "list"), ("big + big", "list"), ("sort_by(big, x => x)", "list"), ("reduce(big, (a, x) => a, 0)", "list"), ("big into len", "any"),
+        ("{...big, z: 1}", "record"), ("keys(big)", "record"), ("values(big)", "record"), ("entries(big)", "record"), ("big.k1", "record"), ("{...big}", "record"), ("[...big]", "record"),
+    ];
+    let mut jobs: Vec<(String, String)> = vec![];
+    for (v, ty) in &values {
+        for (op, want) in &ops {
+            if *want == "any" || want == ty {
+                jobs.push((v.clone(), op.to_string()));
+            }
+        }
+    }
+    let results: Vec<Vec<(String, String, String)>> = par_map(&jobs, |(v, op)| {
+        let mut problems = vec![];
+        let mut s = Session::new();
+        s.sv_mode = true;
+        let _ = s.run("sep = \"-\"\nother = [1]");
+        // bound last: nothing else is allocated between the operand and the operation
+        if !s.run(&format!("big = {}", v)).is_ok() {
+            return vec![("machinery".into(), "big binds".into(), "failed".into())];
+        }
+        let before = s.lookup("big").unwrap_or_default();
+        let r1 = s.run(&format!("r1 = {}", op));
+        let mid = s.lookup("big").unwrap_or_default();
+        let r2 = s.run(&format!("r2 = {}", op));
+        let after = s.lookup("big").unwrap_or_default();
+        if before != mid || before != after {
+            problems.push(("operand-modified".to_string(), truncate(&before, 120), truncate(&after, 120)));
+        }
+        if r1.cmp_key() != r2.cmp_key() {
+            problems.push(("twice-differs".to_string(), truncate(&r1.cmp_key(), 120), truncate(&r2.cmp_key(), 120)));
+        }
+        // the first result must not have been changed by the second evaluation either
+        if r1.is_ok() && s.lookup("r1").map(|x| format!("ok:{}", x)) != Some(r1.cmp_key()) {
+            problems.push(("result-modified-later".to_string(), truncate(&r1.cmp_key(), 120), truncate(&s.lookup("r1").unwrap_or_default(), 120)));
+        }
+        problems
+    });
+    for ((v, op), probs) in jobs.iter().zip(results.iter()) {
+        ctx.count(2);
+        ctx.nontrivial(&format!("{} | {}", v, op));
+        ctx.outcome("operand-immutability");
+        for (kind, exp, obs) in probs {
+            if kind == "machinery" {
+                ctx.machinery_error(format!("operand {} does not bind", v));
+                continue;
+            }
+            ctx.violation(Violation {
+                kind: kind.clone(),
+                class: "operand-immutability".into(),
+                input: format!("sep = \"-\" ; other = [1] ; big = {} ; r1 = {} ; r2 = {}", v, op, op),
+                expected: exp.clone(),
+                observed: obs.clone(),
+                case: json!({"inline": format!("sep = \"-\"\nother = [1]\nbig = {}\nr1 = {}\nr2 = {}\n[len(to_string(big)), to_string(r1) == to_string(r2)]", v, op, op), "abstracted": format!("sep = \"-\"\nother = [1]\nbig = {}\n[len(to_string(big)), true]", v)}),
+            });
+        }
+    }
+}
+
 /// Every script over the logged choice points with at most `max_dev` non-default answers.
 fn deviation_scripts(log: &[(usize, usize)], max_dev: usize) -> Vec<Vec<usize>> {
     let mut out: Vec<Vec<usize>> = vec![];
@@ -590,6 +666,7 @@ pub fn run(ctx: &Ctx, replay: Option<&J>) -> i32 {
     }
     ctx.set("expressions", json!(exprs.len()));
     par_for_ctx(ctx, exprs.len(), |i| check_expression(ctx, &exprs[i]));
+    check_operand_immutability(ctx);
     check_repeated_subexpression(ctx);
     check_order_abstraction(ctx);
     // ---- (v) the real binary, fresh processes (repetition, not the deciding step)
@@ -620,7 +697,7 @@ pub fn run(ctx: &Ctx, replay: Option<&J>) -> i32 {
     finish(
         ctx,
         "model_checking",
-        "states = histories of <= 2 earlier programs (39-program alphabet) and iteration-order answer scripts with <= 2 deviations at the choice points each program reaches (H1 seam: captured scopes and environments); transitions = one whole-program evaluation in a fresh session, observed as status + outputs JSON + all bindings and compared with the empty-history / default-order run; plus every generated expression (every kind, parent x child spines over shared list / record / string / function / number leaves, built-ins applied to shared values) evaluated twice with all earlier bindings re-checked, let-abstraction of every assignment-free sub-expression, and abstraction of a repeated sub-expression (15 values incl. NaN-carrying containers x 38 two-/three-hole contexts: the occurrences become one heap object) and of one of two different sub-expressions (29 values incl. one-character strings sharing a UTF-8 lead byte x 7 contexts x 3 orders of creation); the real binary repeated in fresh processes; distinct = histories, (program, script) pairs and expressions",
+        "states = histories of <= 2 earlier programs (39-program alphabet) and iteration-order answer scripts with <= 2 deviations at the choice points each program reaches (H1 seam: captured scopes and environments); transitions = one whole-program evaluation in a fresh session, observed as status + outputs JSON + all bindings and compared with the empty-history / default-order run; plus every generated expression (every kind, parent x child spines over shared list / record / string / function / number leaves, built-ins applied to shared values) evaluated twice with all earlier bindings re-checked, operand immutability for strings / lists / records of 10..5000 (thorough 1..70000) bytes or elements under 42 operators and built-ins (the operand bound last, evaluated twice), let-abstraction of every assignment-free sub-expression, and abstraction of a repeated sub-expression (15 values incl. NaN-carrying containers x 38 two-/three-hole contexts: the occurrences become one heap object) and of one of two different sub-expressions (29 values incl. one-character strings sharing a UTF-8 lead byte x 7 contexts x 3 orders of creation); the real binary repeated in fresh processes; distinct = histories, (program, script) pairs and expressions",
         true,
         Some((states, transitions, transitions)),
     )
